@@ -149,7 +149,8 @@ def _run_case(case, ctx):
             # an earlier conversion in this process of another survey of the same layout (no extended textual
             # headers) stored under the same file name, read with the same reader: nothing of it may survive
             pdata = gen.make_values(shape, "gauss", case["prior"])
-            ppath = build_segy(dict(case, ext=0), d, pdata)
+            # (half of the time in the other sample format: IBM where the main survey is IEEE and vice versa)
+            ppath = build_segy(dict(case, ext=0, fmt=(6 - case["fmt"]) if case["prior"] % 2 else case["fmt"]), d, pdata)
             pout = os.path.join(d, "prior.sgz")
             conv.segy_convert(ppath, pout, 4, (4, 4, -1), reduce_iops=(case["reader"] == "reduced"))
             import segyio
